@@ -565,6 +565,12 @@ func runBridgeScenario(t *testing.T, fam string, seed uint64, idx int, out *bufi
 		}
 		r.line("cfg\t%s\t%s\t%d", b01(hook), b01(getter), conc)
 		opts := &jhttp.BridgeOptions{Server: &jrpc2.ServerOptions{Concurrency: conc}}
+		if idx%3 == 1 {
+			// push enabled on the bridge server (nothing is ever pushed here): reply-shaped and method-less members
+			// of a POST are answered exactly as without it
+			opts.Server.AllowPush = true
+			r.line("env\tallowpush")
+		}
 		if hook {
 			opts.ParseRequest = func(req *http.Request) ([]*jrpc2.ParsedRequest, error) {
 				body, err := io.ReadAll(req.Body)
